@@ -1,5 +1,113 @@
-(* C07 — placeholder statements; the serialisation theorems are in GCS/ConcProofs.v (to come) *)
+(* C07 — GCS: concurrent operations on one object are atomic and serialisable, for ALL schedules
+   of the interleaving model GCS/Conc.v.  Only statements here; proofs are in GCS/ConcProofs.v. *)
 From Coq Require Import List NArith ZArith Bool.
-From Emu.GCS Require Import Model Conc.
-Example C07_model_runs : snd (gstep (mkGState init_state nil nil) 0) = OIdle.
-Proof. reflexivity. Qed.
+Import ListNotations.
+From Emu.Common Require Import Bytes Str.
+From Emu.GCS Require Import Model Conc UploadProofs GenerationProofs ComposeProofs ConcProofs.
+Local Open Scope Z_scope.
+
+(* ---- 1. the object locks ---- *)
+
+(* in every reachable state: at most one holder per object key, at most one lock per thread,
+   (k, i) is in the holders list iff thread i is parked at its yield on a request locking k *)
+Theorem C07_glock_inv : forall s0 progs sched, glock_inv (fst (grun (init_g s0 progs) sched)).
+Proof. exact glock_inv_reachable. Qed.
+Print Assumptions C07_glock_inv.
+
+Theorem C07_glock_inv_step : forall st i, glock_inv st -> glock_inv (fst (gstep st i)).
+Proof. exact glock_inv_gstep. Qed.
+Print Assumptions C07_glock_inv_step.
+
+(* a blocked step happens only when ANOTHER thread holds the key, and changes nothing but the
+   freezing of the head request of the stepping thread *)
+Theorem C07_blocked_step : forall st i, glock_inv st -> snd (gstep st i) = OBlocked ->
+  exists th r0 rest k j,
+    nth_error (g_threads st) i = Some th /\ gt_todo th = r0 :: rest /\ gt_prog th = GNew
+    /\ lock_key r0 = Some k /\ j <> i /\ In (k, j) (g_holders st) /\ holds_key st j k
+    /\ fst (gstep st i) = mkGState (g_store st) (g_holders st)
+                            (upd_nth (g_threads st) i (mkGThread (freeze (g_store st) r0 :: rest) GNew)).
+Proof. exact gstep_blocked_spec. Qed.
+Print Assumptions C07_blocked_step.
+
+(* a step of thread i touches no other thread *)
+Theorem C07_step_other_threads : forall st i j, j <> i ->
+  nth_error (g_threads (fst (gstep st i))) j = nth_error (g_threads st) j.
+Proof. exact gstep_other_threads. Qed.
+Print Assumptions C07_step_other_threads.
+
+(* ---- 2. the final store is the fold of the commit effects, in schedule order ---- *)
+
+Theorem C07_gconc_effects : forall sched st,
+  g_store (fst (grun st sched)) = fold_left apply_geffect (geffects st sched) (g_store st).
+Proof. exact gconc_effects. Qed.
+Print Assumptions C07_gconc_effects.
+
+Theorem C07_gconc_effect_resps : forall sched st,
+  done_resps (snd (grun st sched)) = effect_resps (g_store st) (geffects st sched).
+Proof. exact gconc_effect_resps. Qed.
+Print Assumptions C07_gconc_effect_resps.
+
+(* what one step does, summarised by its effect *)
+Theorem C07_step_effect_spec : forall st i,
+  match step_effect st i with
+  | Some e => g_store (fst (gstep st i)) = apply_geffect (g_store st) e
+              /\ snd (gstep st i) = ODone (effect_resp (g_store st) e)
+  | None => g_store (fst (gstep st i)) = g_store st /\ forall rsp, snd (gstep st i) <> ODone rsp
+  end.
+Proof. exact step_effect_spec. Qed.
+Print Assumptions C07_step_effect_spec.
+
+(* ---- 3. serialisability ---- *)
+
+(* programs without compose: every schedule equals the sequential run of the frozen requests in
+   commit order — same final store, same responses in the same order *)
+Theorem C07_gconc_serializable_object : forall s0 progs sched, Forall (Forall not_compose) progs ->
+  let st := init_g s0 progs in
+  g_store (fst (grun st sched)) = fst (run s0 (glog st sched))
+  /\ done_resps (snd (grun st sched)) = snd (run s0 (glog st sched)).
+Proof. exact gconc_serializable_object. Qed.
+Print Assumptions C07_gconc_serializable_object.
+
+(* real-time order: A answered before B's first step => A precedes B in the linearisation *)
+Theorem C07_gconc_real_time : forall st s1 s2 A rA B rB,
+  In (A, rA) (glog_t st s1) -> ~ In B (gops st s1) -> In (B, rB) (glog_t st (s1 ++ s2)) ->
+  exists l1 l2 l3, glog_t st (s1 ++ s2) = l1 ++ (A, rA) :: l2 ++ (B, rB) :: l3.
+Proof. exact gconc_real_time. Qed.
+Print Assumptions C07_gconc_real_time.
+
+Theorem C07_glog_t_reqs : forall sched st, map snd (glog_t st sched) = glog st sched.
+Proof. exact glog_t_reqs. Qed.
+Print Assumptions C07_glog_t_reqs.
+
+(* every operation is linearised at most once *)
+Theorem C07_glog_t_nodup : forall sched st, NoDup (map fst (glog_t st sched)).
+Proof. exact glog_t_nodup. Qed.
+Print Assumptions C07_glog_t_nodup.
+
+(* compose: all sources exist in ONE store state (the capture step) ... *)
+Theorem C07_compose_capture : forall st i b dst bad srcs dm cp,
+  cur_req st i = Some (RCompose b dst bad srcs dm cp, GNew) -> snd (gstep st i) = OAt ->
+  exists dstname,
+    lock_key (RCompose b dst bad srcs dm cp) = Some (b, dstname)
+    /\ Forall (src_usable (g_store st) b) srcs
+    /\ g_store (fst (gstep st i)) = g_store st
+    /\ cur_req (fst (gstep st i)) i
+       = Some (RCompose b dst bad srcs dm cp,
+               GHold (Some (mkObj (flat_map (src_data (g_store st) b) srcs) (dm_ctype dm)
+                                  (s_clock (g_store st) + 1) 1 false (dm_meta dm)))).
+Proof. exact compose_capture. Qed.
+Print Assumptions C07_compose_capture.
+
+(* ... and their concatenation is stored with a generation fresh at commit time *)
+Theorem C07_compose_commit : forall st i b dst bad srcs dm cp o d,
+  cur_req st i = Some (RCompose b dst bad srcs dm cp, GHold (Some o)) ->
+  lock_key (RCompose b dst bad srcs dm cp) = Some (b, d) ->
+  let s := g_store st in
+  let o' := mkObj (o_data o) (o_ctype o) (s_clock s + 1) 1 (o_md5 o) (o_meta o) in
+  step_effect st i = Some (EAdd b d o)
+  /\ snd (gstep st i) = ODone (mkResp 200 (BMeta (view b d o')))
+  /\ find_obj (g_store (fst (gstep st i))) b d = Some o'
+  /\ (forall b' n', (b', n') <> (b, d) -> find_obj (g_store (fst (gstep st i))) b' n' = find_obj s b' n')
+  /\ (gens_bounded s -> forall b0 n0 o0, find_obj s b0 n0 = Some o0 -> o_gen o0 < o_gen o').
+Proof. exact compose_commit. Qed.
+Print Assumptions C07_compose_commit.
